@@ -1,3 +1,4 @@
+import GqlProofs.Gen.Accounted
 import GqlProofs.Lexer.BlockSpec
 import GqlProofs.Lexer.Pos
 import GqlProofs.Lexer.NumFollow
@@ -146,3 +147,22 @@ theorem C03_ignored_only_ws (rest : Bytes) (c : Cur) (hA : Ascii rest) :
 
 -- non-vacuity
 example : blockStringValue (str "  a\n    b") = str "  a\nb" := by decide
+
+/-! ### facts regenerated from /repo's sources on every run (GqlModel/Gen/Facts.lean) -/
+
+/-- lexer/token.go's kind constants are, in order, the kinds of the model (`Kind.toNat` is the Go iota). -/
+theorem C03_gen_token_kinds_agree :
+    Gql.Gen.tokenKinds = ["Invalid", "EOF", "Bang", "Dollar", "Amp", "ParenL", "ParenR", "Spread", "Colon",
+      "Equals", "At", "BracketL", "BracketR", "BraceL", "BraceR", "Pipe", "Name", "Int", "Float", "String",
+      "BlockString", "Comment"] := by decide
+
+/-- The `case c: return s.makeValueToken(K, "")` clauses of ReadToken are exactly the model's
+    punctuator table (byte, kind number). -/
+theorem C03_gen_punctuators_agree :
+    Gql.Gen.punctCases.map (fun p => (p.1, Gql.Gen.tokenKinds.idxOf p.2)) =
+      punctTable.map (fun p => (p.1, p.2.toNat)) := by decide
+
+/-- The single-character escapes of readString are exactly the model's `escapeOut`. -/
+theorem C03_gen_escapes_agree :
+    (∀ p ∈ Gql.Gen.stringEscapes, escapeOut p.1 = some p.2) ∧
+    (∀ e, e < 128 → (escapeOut e).isSome → (Gql.Gen.stringEscapes.lookup e).isSome) := by decide
